@@ -1041,6 +1041,8 @@ pub fn run(opts: &Opts) -> i32 {
             if sh == 1 {
                 let (case, res, verdict) = directed_fold_zero(&keep);
                 out.emit3(&case, &res, &verdict);
+                let (case, res, verdict) = directed_full_device_close(&keep);
+                out.emit3(&case, &res, &verdict);
             }
             // bulkdel=1: shard 0 adds the directed workload whose single flush retires more
             // non-adjacent extents than one journal transaction names (recipe bulkdel)
@@ -1923,6 +1925,65 @@ pub fn directed_fold_zero(dir: &str) -> (String, String, String) {
     let _ = std::fs::remove_file(&path);
     let _ = std::fs::remove_file(&copy);
     (format!("note directed=fold-zero-record {status}"), "note".to_string(), verdict)
+}
+
+/// Directed (C02, clean close): a FULL device; with the periodic flusher held (hook H11), a key is
+/// deleted and written again (or a different key is written into the space the delete frees) and
+/// the store is dropped without a flush.  The write can only be allocated after the delete of the
+/// same pass has been retired, so the pass must be repeated -- by the shutdown drain, since nothing
+/// else runs.  A clean close acknowledges everything accepted before it: after the reopen the key
+/// holds its last value and the other keys are intact.
+pub fn directed_full_device_close(dir: &str) -> (String, String, String) {
+    let path = format!("{dir}/fullclose_{}.feox", std::process::id());
+    let run = || -> Result<String, String> {
+        let mut rounds = 0;
+        for round in 0..4u64 {
+            let _ = std::fs::remove_file(&path);
+            let data_blocks = 4 + round; // 20..23-block devices
+            let build = || FeoxStore::builder().device_path(path.clone()).file_size((16 + data_blocks) * 4096).enable_caching(false).build();
+            let store = build().map_err(|e| format!("cannot-create-store {e}"))?;
+            for i in 0..data_blocks {
+                store.insert(format!("k{i}").as_bytes(), format!("first-life-{i}").as_bytes()).map_err(|e| format!("insert {e}"))?;
+                store.flush().map_err(|e| format!("flush {e}"))?;
+            }
+            feoxdb::verif::dev::set_periodic_flush_paused(true);
+            let victim = format!("k{}", round % data_blocks);
+            let (wkey, wval) = if round % 2 == 0 { (victim.clone(), "second-life".to_string()) } else { ("newcomer".to_string(), "takes-the-freed-block".to_string()) };
+            let r1 = store.delete(victim.as_bytes());
+            let r2 = store.insert(wkey.as_bytes(), wval.as_bytes());
+            drop(store);
+            feoxdb::verif::dev::set_periodic_flush_paused(false);
+            if r1.is_err() || r2.is_err() {
+                continue; // not accepted: nothing to decide
+            }
+            rounds += 1;
+            let store = build().map_err(|e| format!("reopen-after-a-clean-close-failed {e}"))?;
+            match store.get(wkey.as_bytes()) {
+                Ok(v) if v == wval.as_bytes() => {}
+                Ok(_) => return Err(format!("key-written-before-a-clean-close-holds-an-older-value round={round} key={wkey}")),
+                Err(e) => return Err(format!("key-written-before-a-clean-close-is-lost round={round} key={wkey} error={e} (full device: the write needed the block its pass's delete freed)")),
+            }
+            if wkey != victim && store.get(victim.as_bytes()).is_ok() {
+                return Err(format!("key-deleted-before-a-clean-close-is-back round={round} key={victim}"));
+            }
+            for i in 0..data_blocks {
+                let k = format!("k{i}");
+                if k != victim && store.get(k.as_bytes()).ok() != Some(format!("first-life-{i}").into_bytes()) {
+                    return Err(format!("bystander-key-changed-over-a-clean-close round={round} key={k}"));
+                }
+            }
+            drop(store);
+        }
+        Ok(format!("rounds-decided={rounds}"))
+    };
+    let (status, verdict) = match std::panic::catch_unwind(std::panic::AssertUnwindSafe(run)) {
+        Ok(Ok(s)) => (s, "ok".to_string()),
+        Ok(Err(e)) => ("failed".to_string(), format!("FAIL {e}").replace(": ", "=")),
+        Err(_) => ("panicked".to_string(), "FAIL an-api-call-panicked".to_string()),
+    };
+    feoxdb::verif::dev::set_periodic_flush_paused(false);
+    let _ = std::fs::remove_file(&path);
+    (format!("note directed=full-device-clean-close {status}"), "note".to_string(), verdict)
 }
 
 /// engine `fault` (C09): single faults at every device call (before / after), pairs, persistent
